@@ -12,7 +12,22 @@ impl Params {
         // - k >= 3 so the encoded solutions have an exact byte length.
         // - k < n, so the collision bit length is at least 1.
         // - n is a multiple of k + 1, so we have an integer collision bit length.
-        if n.is_multiple_of(8) && (k >= 3) && (k < n) && n.is_multiple_of(k + 1) {
+        // - n <= 512, so at least one index fits in a BLAKE2b hash output.
+        // - the collision bit length n / (k + 1) is in 8..=24, which is what the minimal-encoding
+        //   and hash-expansion code can represent: its bit arithmetic needs at least 8 bits per
+        //   element, and an index (collision bit length + 1 bits) must fit a u32 with 7 bits of
+        //   accumulator headroom.
+        // - k <= n / (k + 1) + 1, so that the 2^k distinct indices a solution consists of exist
+        //   at all (an index has collision bit length + 1 bits); this also keeps `1 << k` and the
+        //   solution length far from overflowing.
+        if n.is_multiple_of(8)
+            && (k >= 3)
+            && (k < n)
+            && n.is_multiple_of(k + 1)
+            && (n <= 512)
+            && (8..=24).contains(&(n / (k + 1)))
+            && (k <= n / (k + 1) + 1)
+        {
             Some(Params { n, k })
         } else {
             None
